@@ -1235,6 +1235,19 @@ def gen_spec(run_seed, prop):
                             'overwrite': rng.random() < 0.4})
                 if rng.random() < 0.5:
                     ops.append({'op': 'repeat'})
+                if rng.random() < 0.35:
+                    # the source grows by a third sub-tree and is merged
+                    # into the same target once more
+                    c = rng.choice(files)
+                    ops.append({'op': 'load', 'root': c,
+                                'as': 'L%d' % (nlib + 2), 'grid': False})
+                    ops.append({'op': 'update', 'dst': 'L%d' % (nlib + 1),
+                                'src': 'L%d' % (nlib + 2),
+                                'overwrite': rng.random() < 0.5})
+                    ops.append({'op': 'update', 'dst': 'L%d' % nlib,
+                                'src': 'L%d' % (nlib + 1),
+                                'overwrite': rng.random() < 0.4})
+                    nlib += 1
                 nlib += 2
             elif r < 0.72 and nlib >= 2:
                 ops.append({'op': 'corr_update',
